@@ -1313,6 +1313,8 @@ class Evaluator:
         raise Unsupported("pit index (line %d)" % lineno)
 
     def store_subscript(self, base, idx, v, lineno, env, aug=False):
+        if type(idx).__name__ == "IndexObj":
+            idx = idx.arr           # a pandas Index used as an integer index array
         if hasattr(base, "setitem"):
             return base.setitem(self, idx, v, lineno)
         if isinstance(base, dict):
